@@ -34,7 +34,12 @@ def duplicate(
         if source_ is None:
             source_ = package.pkg.descriptor['resources'][0]['name']
         if target_name_ is None:
-            target_name_ = source_ + '_copy'
+            # the default name, or the next free one
+            taken = set(r['name'] for r in package.pkg.descriptor['resources'])
+            target_name_, index = source_ + '_copy', 1
+            while target_name_ in taken:
+                index += 1
+                target_name_ = '{}_copy_{}'.format(source_, index)
         if target_path is None:
             target_path_ = target_name_ + '.csv'
 
